@@ -192,6 +192,7 @@ func newWorld(t *testing.T, c *sim.Case, res *sim.Result) *world {
 	w.heartbeatTick = int(c.CfgInt("heartbeat_tick", 2))
 	verifhook.Reset()
 	verifhook.Set("lsm.no-background-compaction", 1)
+	verifhook.Set("lsm.serial-table-build", 1)
 	w.sched = sim.NewSched(sim.NewRand(c.Seed, c.Run, 1), c.Sched, res.Trace)
 	w.oldReader = crand.Reader
 	crand.Reader = &detReader{r: sim.NewRand(uint64(c.CfgInt("raft_rand", 1)), 0, 7)}
